@@ -74,9 +74,15 @@ def hasVert (v : Nat) (t : Tri) : Bool := (triVerts t).contains v
 /-- `getVertexToFace().Value(v)`: the faces at `v` in iteration order. -/
 def trisAt (v : Nat) (ts : List Tri) : List Tri := ts.filter (hasVert v)
 
+/-- The same with face identities (the search below works on slice indices). -/
+def facesAt (v : Nat) (fs : List Face) : List Face := fs.filter fun f => hasVert v f.2
+
+/-- `expandTri.SharesEdge(tris[visitIdx])` on faces with identity. -/
+def fanAdj (s t : Face) : Bool := sharesEdge s.2 t.2
+
 /-- The inner `for i := 0; i < len(unvisited); i++` loop of `SingularVertices` with its
 swap-with-last removal: returns (what stays unvisited, what was pushed — both in Go's order). -/
-def sweep (p : Tri → Bool) : List Tri → List Tri × List Tri
+def sweep {α : Type} (p : α → Bool) : List α → List α × List α
   | [] => ([], [])
   | x :: rest =>
     if p x then
@@ -93,18 +99,18 @@ decreasing_by
   all_goals simp [List.length_dropLast]
 
 /-- The outer `for len(unvisited) > 0 && len(visitQueue) > 0` loop: `stack` has its top at the
-head; returns the triangles never reached. -/
-def fanSearch : Nat → List Tri → List Tri → List Tri
+head; returns the faces never reached. -/
+def fanSearch : Nat → List Face → List Face → List Face
   | 0, _, unv => unv
   | _ + 1, [], unv => unv
   | n + 1, x :: stack, unv =>
     if unv.isEmpty then unv else
-      let r := sweep (sharesEdge x) unv
+      let r := sweep (fanAdj x) unv
       fanSearch n (r.2.reverse ++ stack) r.1
 
 /-- What is left unvisited for vertex `v`. -/
-def fanUnvisited (ts : List Tri) (v : Nat) : List Tri :=
-  match trisAt v ts with
+def fanUnvisited (ts : List Tri) (v : Nat) : List Face :=
+  match facesAt v (enum ts) with
   | [] => []
   | t :: rest => fanSearch (rest.length + 1) [t] rest
 
@@ -136,8 +142,6 @@ def families {α : Type} (adj : α → α → Bool) : Nat → List α → List (
 /-- Two faces at `p` are joined when they share a vertex other than `p` (the loop
 `for _, c := range next.Coords { if c == p {continue}; for _, t1 := range c.Triangles …`). -/
 def adjAt (p : Nat) (s t : Face) : Bool := (triVerts s.2).any fun c => c != p && hasVert c t.2
-
-def facesAt (v : Nat) (fs : List Face) : List Face := fs.filter fun f => hasVert v f.2
 
 /-- `ptrCoord.Clusters` for the vertex `p` of the mesh `ts`. -/
 def clusters (ts : List Tri) (p : Nat) : List (List Face) :=
@@ -411,9 +415,9 @@ inductive Reach {α : Type} (adj : α → α → Bool) (U : List α) : α → α
   | refl (a : α) : Reach adj U a a
   | step {a b c : α} : Reach adj U a b → c ∈ U → adj b c = true → Reach adj U a c
 
-/-- The fan graph at `v` (faces at `v`, joined when they share an edge) is connected. -/
+/-- The fan graph at `v` (the faces at `v`, joined when they share an edge) is connected. -/
 def FanGraphConnected (ts : List Tri) (v : Nat) : Prop :=
-  ∀ s ∈ trisAt v ts, ∀ t ∈ trisAt v ts, Reach sharesEdge (trisAt v ts) s t
+  ∀ s ∈ facesAt v (enum ts), ∀ t ∈ facesAt v (enum ts), Reach fanAdj (facesAt v (enum ts)) s t
 
 /-- Executable closure: everything of `U` reachable from `start` (naive iteration, `n` rounds). -/
 def closure {α : Type} [BEq α] (adj : α → α → Bool) (U : List α) : Nat → List α → List α
